@@ -73,6 +73,12 @@ package server
 //@   ensures respCount == old(respCount) + 1 && (isType(v, "*request.CDCResponse") ==> lastRespCode == cast(v, "*request.CDCResponse").Code)
 //@   modifies respCount, lastRespCode
 
+// net/http: asking for the header map and setting an entry in it touch nothing but that map
+//@ trusted func (net/http.ResponseWriter).Header
+//@   modifies nothing
+//@ trusted func (net/http.Header).Set
+//@   modifies maps(string;[]string), fresh([]string)
+
 //@ func (*CDCServer).handleError
 //@   props C19
 //@   requires c != nil
@@ -84,9 +90,11 @@ package server
 //@   props C19
 //@   requires c != nil && cdcRequest != nil
 //@   dyncall modifies * except respCount lastRespCode
+// the eight entries of requestHandlers return the CDCService result: a non-nil response exactly when there is no error
+//@   dyncall results 2 ensures result1 == nil ==> result0 != nil
 //@   ensures [no-response-value-means-one-error-document] result == nil ==> respCount == old(respCount) + 1 && (lastRespCode == 400 || lastRespCode == 500)
 //@   ensures [a-response-value-means-nothing-written-yet] result != nil ==> respCount == old(respCount)
-//@   modifies * except respCount lastRespCode
+//@   modifies *
 
 //@ func (*CDCServer).getCDCHandler$1
 //@   props C19
